@@ -132,5 +132,5 @@ def st_hist(version):
 def parts(tier):
     q = tier == "quick"
     return [Part("graphs", prop_graph, strategy=st_graph(), n=400 if q else 2000, quick_shards=2),
-            Part("hist-gfa1", prop_history, strategy=st_hist("gfa1"), n=60 if q else 300),
-            Part("hist-gfa2", prop_history, strategy=st_hist("gfa2"), n=60 if q else 300)]
+            Part("hist-gfa1", prop_history, strategy=st_hist("gfa1"), n=150 if q else 600),
+            Part("hist-gfa2", prop_history, strategy=st_hist("gfa2"), n=150 if q else 600)]
